@@ -234,6 +234,9 @@ IW_INLINE const struct iwavl_node* _fsm_find_matching_fblock_lw(
   iwfs_fsm_aflags opts) {
   struct bkey bk;
   const struct iwavl_node *ub, *lb;
+  if (offset_blk > (uint32_t) -1) { // Only a locality hint: one that no block key can hold must not make every lookup fail
+    offset_blk = (uint32_t) -1;
+  }
   if (_fsm_init_bkey(&bk, offset_blk, length_blk)) {
     return 0;
   }
@@ -1096,6 +1099,9 @@ static iwrc _fsm_blk_allocate_lw(
   struct iwavl_node *nn;
   fsm_bmopts_t bopts = FSM_BM_NONE;
 
+  if (length_blk > (uint32_t) -1) { // No free extent can be that long (struct bkey): growing the bitmap would never end
+    return IW_ERROR_OVERFLOW;
+  }
   if (opts & IWFSM_ALLOC_PAGE_ALIGNED) {
     while (1) {
       rc = _fsm_blk_allocate_aligned_lw(fsm, length_blk, offset_blk, olength_blk, UINT64_MAX, opts);
